@@ -6,6 +6,7 @@ import (
 	"os"
 
 	"github.com/scrapli/scrapligo/util"
+	"github.com/scrapli/scrapligo/util/simhook"
 
 	"golang.org/x/crypto/ssh/knownhosts"
 
@@ -49,6 +50,10 @@ type Standard struct {
 
 func (t *Standard) openSession(a *Args, cfg *ssh.ClientConfig) error {
 	var err error
+
+	if sc := simhook.Dial(tcp, fmt.Sprintf("%s:%d", a.Host, a.Port)); sc != nil {
+		return t.openSessionOver(sc, fmt.Sprintf("%s:%d", a.Host, a.Port), a, cfg)
+	}
 
 	t.client, err = ssh.Dial(
 		tcp,
